@@ -88,6 +88,8 @@ pub enum Leaf {
     Joinh { h: u32 },
     /// next message of the task-to-task channel in slot c (0 when it is closed and empty)
     Recv { c: u32 },
+    /// next message of the case-wide channel g
+    Grecv { g: u32 },
 }
 
 fn is_false(b: &bool) -> bool {
@@ -124,6 +126,9 @@ pub enum Instr {
     Trynext { s: u32, dst: u32 },
     /// the same for the task-to-task channel in slot c
     Tryrecv { c: u32, dst: u32 },
+    /// send on / wait for the case-wide channel g (shared by every task of every command of the case)
+    Gsend { g: u32, src: Src },
+    Grecv { g: u32, dst: u32 },
 }
 
 pub fn apply_f(f: &str, v: u32) -> u32 {
@@ -412,6 +417,13 @@ fn leaf_future(
             let jh = env.handles[*h as usize].clone().expect("no handle");
             (jh.fut)().map(|()| 0).boxed()
         }
+        Leaf::Grecv { g } => {
+            let rx = crate::app::gchan(*g).rx;
+            futures::future::poll_fn(move |cx| {
+                rx.lock().unwrap().poll_next_unpin(cx).map(|o| o.unwrap_or(0))
+            })
+            .boxed()
+        }
         Leaf::Recv { c } => {
             let rx = env.chans[*c as usize].as_ref().expect("no channel").rx.clone();
             futures::future::poll_fn(move |cx| {
@@ -557,6 +569,19 @@ pub fn run_script(
                     let rx = env.chans[*c as usize].as_ref().expect("no channel").rx.clone();
                     let item = rx.lock().unwrap().next().now_or_never();
                     env.regs[*dst as usize] = item.flatten().unwrap_or(0);
+                    pc += 1;
+                }
+                Instr::Gsend { g, src } => {
+                    let val = env.src(src).max(1);
+                    let _ = crate::app::gchan(*g).tx.unbounded_send(val);
+                    pc += 1;
+                }
+                Instr::Grecv { g, dst } => {
+                    let rx = crate::app::gchan(*g).rx;
+                    let item =
+                        futures::future::poll_fn(move |cx| rx.lock().unwrap().poll_next_unpin(cx))
+                            .await;
+                    env.regs[*dst as usize] = item.unwrap_or(0);
                     pc += 1;
                 }
                 Instr::Chan { c } => {
